@@ -60,7 +60,9 @@ def fam_src(nodes, tag: str) -> str:
 def _super_host(n):
     """The node list of a component body in which {{ block.super }} can be written: the implicit body, or the
     content of the first plain {% fill %} of a body with explicit fills."""
-    if n.get("t") != "comp":
+    if n.get("t") != "comp" or n.get("only"):
+        # (`only` in django mode: the fill is rendered with the callee's isolated context, which - like every other
+        #  variable of the caller - does not hold Django's `block` variable)
         return None
     if n.get("body") == "impl":
         return n["a"]
@@ -221,7 +223,7 @@ def finding_key(p, e, o, m) -> Optional[str]:
     ext = {i + 1 for i, c in enumerate(p["comps"]) if c.get("ext")}
     insts = [(tuple(path), c) for path, c in e["insts"] if c in ext]
     # the default alias of a fill used inside a {% block %} override that sits in that fill (open finding)
-    if m["what"] == "tokens" and _defref_in_block(p):
+    if m["what"] in ("tokens", "hang") and _defref_in_block(p):
         return "default-alias-inside-block-override:default-content-not-rendered"
     # (the three shapes below were repaired - KNOWN_FINDINGS.txt lists them as `fixed:` - so these keys excuse
     #  nothing any more; they only label a violation should the defect return)
